@@ -443,6 +443,35 @@ func genHist(prop, out, tier string, rng *rand.Rand, oracle string) {
 			tasks = append(tasks, Task{stores()[0], "tricky", prog2, true})
 		}
 	}
+	if prop == "C15" {
+		// directed: copies and composes between objects of EQUAL size (with and without MD5), onto existing destinations
+		up := func(n, d string) Req {
+			return Req{Kind: "upload_media", B: "bkt", N: n, CType: "text/plain", Data: []byte(d), CP: noConds}
+		}
+		comp := func(dst string, srcs ...string) Req {
+			r := Req{Kind: "compose", B: "bkt", N: dst, Up: &UpMeta{CType: "x/composed"}, CP: noConds}
+			for _, s := range srcs {
+				r.Srcs = append(r.Srcs, Src{Name: s, Cond: Raw("")})
+			}
+			return r
+		}
+		cp := func(a, b string) Req { return Req{Kind: "copy", B: "bkt", N: a, B2: "bkt", N2: b} }
+		get := func(n string) []Req {
+			return []Req{{Kind: "get_media", B: "bkt", N: n}, {Kind: "get_meta", B: "bkt", N: n}}
+		}
+		progs := [][]Req{
+			append(append([]Req{up("a", "AAAA"), up("b", "BBBB"), comp("x", "a", "b"), comp("y", "b", "a"), cp("x", "y")}, get("y")...), get("x")...),
+			append(append([]Req{up("a", "AAAA"), up("b", "BBBB"), cp("a", "b")}, get("b")...), get("a")...),
+			append(append([]Req{up("a", "AAAA"), up("b", "BBBB"), comp("x", "a", "b"), up("y", "12345678"), cp("x", "y"), cp("y", "x")}, get("y")...), get("x")...),
+			append([]Req{up("a", "AAAA"), up("b", "BBBB"), comp("x", "a", "b"), comp("y", "b", "a"), comp("z", "x", "y"), comp("x", "y", "y"), cp("x", "z"), cp("z", "z")}, append(get("z"), get("x")...)...),
+			append([]Req{up("a", ""), up("b", ""), comp("x", "a", "b"), comp("y", "a"), cp("x", "y"), cp("x", "a")}, append(get("y"), get("a")...)...),
+		}
+		for _, prog := range progs {
+			for _, mk := range stores() {
+				tasks = append(tasks, Task{mk, "same-size", prog, true})
+			}
+		}
+	}
 	RunTasksNT(sink, tasks, histNontrivial)
 	if prop == "C02" {
 		genUrls(sink, tier, rng) // URL forms against the model of the four unanchored patterns
